@@ -92,6 +92,20 @@ pub struct Scenario {
     /// call the dispatch functions from inside a worker of another pool of this size
     #[serde(default)]
     pub from_pool: Option<usize>,
+    /// caller operations of an async-dispatcher scenario
+    #[serde(default)]
+    pub aops: Vec<AOp>,
+}
+
+#[derive(Clone, Copy, Debug, Serialize, Deserialize, PartialEq, Eq)]
+pub enum AOp {
+    Dispatch,
+    Running,
+    Wait,
+    WaitNoTl,
+    World,
+    WorldMut,
+    Setup,
 }
 
 #[derive(Clone, Copy, Debug, Serialize, Deserialize, PartialEq, Eq)]
@@ -510,6 +524,7 @@ pub fn gen_scenario(seed: u64, cfg: &GenCfg) -> Scenario {
         asyncd: false,
         lifecycle: vec![],
         from_pool: None,
+        aops: vec![],
     }
 }
 
